@@ -380,8 +380,8 @@ def kfold_tests(n, k):
 
 
 def recompute_stats(cfg, rows, cols, target):
-    """reference statistics from first principles (exact rationals over the folds); None when a sample sits on a
-    decision boundary of a fold's classifier up to rounding (not decidable independently of summation order)"""
+    """reference statistics from first principles (exact rationals over the folds); None when a decision of a fold's
+    classifier on a test sample hinges on the rounding of its threshold (SVC: within 1e-9 of a boundary)"""
     n, k = len(rows), cfg["k"]
     fi = [i for i, c in enumerate(cols) if c != target]
     ti = cols.index(target)
@@ -401,24 +401,26 @@ def recompute_stats(cfg, rows, cols, target):
                 sig.append(1 if m <= 1 else 0)
                 ok.append(int(clf.predict([x])[0]) == int(rows[i][ti]))
         else:
-            a0 = [Fraction(rows[i][fi[0]]) for i in train if rows[i][ti] == 0]
-            a1 = [Fraction(rows[i][fi[0]]) for i in train if rows[i][ti] == 1]
-            if a0 and a1:
-                t = (sum(a0) / len(a0) + sum(a1) / len(a1)) / 2
-            else:
-                av = [Fraction(rows[i][fi[0]]) for i in train]
-                t = sum(av) / len(av)
+            # the threshold exactly (rationals) and as the classifier's float expression evaluates it
+            def thr_of(conv):
+                a0 = [conv(rows[i][fi[0]]) for i in train if rows[i][ti] == 0]
+                a1 = [conv(rows[i][fi[0]]) for i in train if rows[i][ti] == 1]
+                if a0 and a1:
+                    return (sum(a0) / len(a0) + sum(a1) / len(a1)) / 2
+                av = [conv(rows[i][fi[0]]) for i in train]
+                return sum(av) / len(av)
+            tq, tf = thr_of(Fraction), Fraction(thr_of(float))
             sig, ok = [], []
             for i in test:
                 x = Fraction(rows[i][fi[0]])
-                d = abs(x - t)
-                for edge in ([Fraction(W0), 2 * Fraction(W0)] if cfg.get("soft") else [Fraction(W0)]):
-                    if abs(d - edge) < Fraction(1, 10**9):
-                        return None
-                if abs(x - t) < Fraction(1, 10**9):
-                    return None
-                sig.append(Fraction(soft_value(d, Fraction(W0))) if cfg.get("soft") else (1 if d <= Fraction(W0) else 0))
-                ok.append(int(x > t) == int(rows[i][ti]))
+                def decide(t):
+                    d = abs(x - t)
+                    sg = Fraction(soft_value(d, Fraction(W0))) if cfg.get("soft") else (1 if d <= Fraction(W0) else 0)
+                    return sg, int(x > t) == int(rows[i][ti])
+                if decide(tq) != decide(tf):
+                    return None          # the decision hinges on the rounding of the fold's threshold
+                sg, o = decide(tq)
+                sig.append(sg); ok.append(o)
         mds.append(Fraction(sum(sig)) / len(sig)); accs.append(Fraction(sum(1 for o in ok if o), len(ok)))
     def ms(v):
         m = sum(v) / len(v)
@@ -670,7 +672,7 @@ REF5 = [[-2.0, 0.0, 0], [0.5, 0.0, 1], [-0.25, 0.0, 1], [3.0, 0.0, 1], [-3.0, 0.
 
 CFG = {
     "A": {"clf": "thr", "k": 2, "sens": 2, "req": 2, "ref": REF4},
-    "B": {"clf": "thr", "k": 3, "sens": 1, "req": 3, "ref": REF6},
+    "B": {"clf": "thr", "k": 3, "sens": 0.2, "req": 3, "ref": REF6},
     "C": {"clf": "thr", "k": 2, "sens": 0.5, "req": 3, "ref": REF5, "soft": True},
     "D": {"clf": "thr", "k": 2, "sens": 2, "req": None, "ref": REF4[:2]},
     "E": {"clf": "thr", "k": 3, "sens": 2, "req": 2, "ref": REF4},                       # oracle length below k
@@ -689,14 +691,14 @@ SREN = ["s", [[-1.0, 0.0, 0], [1.0, 0.0, 1], [4.0, 0.0, 1], [-0.25, 0.0, 0]], ["
 def trees(ctx):
     q = not ctx.thorough
     plan = [
-        ("A", [U1, U0, LC, LW, lmode("renamed")], 6 if q else 8),
-        ("A", [U1, U0, LC, LN, LI, LIW], 5 if q else 7),
-        ("B", [U1, U0, LC, LW, LI], 6 if q else 8),
-        ("C", [U1, U0, UH, LN, LW, LI], 5 if q else 7),
-        ("D", [U1, U0, LC, LW], 7 if q else 9),
-        ("A", [U1, LC, LW, lmode("perm", LW), lmode("missing"), lmode("extra"), lmode("rows2"), ["un", 2]], 4 if q else 6),
-        ("B", [U1, U0, LW, lmode("perm", LN), lmode("rows0"), ["un", 0], SREF], 4 if q else 6),
-        ("A", [U1, U0, LC, LW, SREN, SREF], 4 if q else 6),
+        ("A", [U1, U0, LC, LW, lmode("renamed")], 5 if q else 7),
+        ("A", [U1, U0, LC, LN, LI, LIW], 4 if q else 5),
+        ("B", [U1, U0, LC, LW, LI], 5 if q else 7),
+        ("C", [U1, U0, UH, LN, LW, LI], 4 if q else 5),
+        ("D", [U1, U0, LC, LW], 6 if q else 8),
+        ("A", [U1, LC, LW, lmode("perm", LW), lmode("missing"), lmode("extra"), lmode("rows2"), ["un", 2]], 3 if q else 5),
+        ("B", [U1, U0, LW, lmode("perm", LN), lmode("rows0"), ["un", 0], SREF], 4 if q else 5),
+        ("A", [U1, U0, LC, LW, SREN, SREF], 4 if q else 5),
         ("E", [U1, U0, LC, LW], 5 if q else 7),
         ("F", [U1, U0, LC, LW], 4 if q else 6),
     ]
@@ -832,17 +834,17 @@ def gen_cases(ctx):
     STATS.clear()
     cases = trees(ctx)
     rnd = []
-    for _ in range(ctx.scale(60, 1500)):
+    for _ in range(ctx.scale(40, 500)):
         c = random_history(ctx)
         if c:
             rnd.append(c)
     nsvc = 0
-    for _ in range(ctx.scale(16, 300)):
+    for _ in range(ctx.scale(10, 80)):
         c = random_history(ctx, svc=True)
         if c:
             rnd.append(c); nsvc += 1
     tp = 0
-    for c in list(rnd[: ctx.scale(30, 400)]):
+    for c in list(rnd[: ctx.scale(25, 250)]):
         if c["cfg"]["clf"] == "thr":
             c2 = two_pass(ctx, c)
             if c2:
